@@ -986,6 +986,9 @@ fn main() {
     if args.len() < 3 {
         usage();
     }
+    if args[1] == "fresh-op" {
+        std::process::exit(builder::fresh_op_child(&args[2]));
+    }
     let cmd = args[1].as_str();
     let id = args[2].clone();
     let mut tier = std::env::var("VERIF_TIER").ok().filter(|t| t == "quick" || t == "thorough").unwrap_or_else(|| "quick".to_string());
